@@ -377,7 +377,7 @@ def _parse_json_dict(json_dict, verbose=True, full_output=False):
     def get_Array_from_dict(o):
         layouts = o.get('layout', '1').strip()
         layout = [int(ls.strip()) for ls in layouts.split(',') if len(ls) > 0]
-        N = np.prod(layout)
+        N = int(np.prod(layout))
         values = o['value']
         od = _gen_obsd_from_datad(o.get('data', {}))
         cd = _gen_covobsd_from_cdatad(o.get('cdata', {}))
